@@ -1,65 +1,77 @@
 (** * Record: correspondence check and the C19 trace predicate, evaluated by [vm_compute]
-    on the cases the harness writes. *)
+    on the cases the harness writes.
+
+    The check is generic in the type [I] of implementation-side ids: the harness uses
+    interned numbers ([I := Z]: equal bytes <-> equal number); [Record/Sound.v] instantiates
+    it with the model's own ids to prove that every trace of the model passes. *)
 From Irismod Require Export Record.Model.
 
-(** what the implementation showed after a step *)
-Record obs := mkObs {
-  o_code : Z;                         (* 0 ok, 1 rejected, 2 abort *)
-  o_ids : list Z;                     (* ids returned (interned: equal bytes <-> equal number) *)
-  o_counter : Z;                      (* IntraTxCounter afterwards *)
-  o_reads : list (Z * option rec)     (* query by every id returned so far *)
-}.
+Section Check.
+  Context {I : Type} `{EqDec I}.
 
-Definition case := list (step * obs).
+  (** what the implementation showed after a step *)
+  Record obs := mkObs {
+    o_code : Z;                         (* 0 ok, 1 rejected, 2 abort *)
+    o_ids : list I;                     (* ids returned *)
+    o_counter : Z;                      (* IntraTxCounter afterwards *)
+    o_reads : list (I * option rec)     (* query by every id returned so far *)
+  }.
 
-(** bookkeeping: implementation id, model id, submitted record *)
-Definition known := list (Z * rid * rec).
+  (** bookkeeping: implementation id, model id, submitted record *)
+  Definition known := list (I * rid * rec).
 
-Fixpoint zip3 (iids : list Z) (cs : list (rid * rec)) : known :=
-  match iids, cs with
-  | i :: iids', (m, r) :: cs' => (i, m, r) :: zip3 iids' cs'
-  | _, _ => []
-  end.
+  Fixpoint zip3 (iids : list I) (cs : list (rid * rec)) : known :=
+    match iids, cs with
+    | i :: iids', (m, r) :: cs' => (i, m, r) :: zip3 iids' cs'
+    | _, _ => []
+    end.
 
-Definition lookup_read (i : Z) (reads : list (Z * option rec)) : option (option rec) := get i reads.
+  Definition lookup_read (i : I) (reads : list (I * option rec)) : option (option rec) := get i reads.
 
-(** correspondence of one step: outcome kind, counter, number of ids, and every read-back
-    equal to the model's query under the model's id *)
-Definition corr_step (s s' : state) (st : step) (cs : list (rid * rec)) (o : obs) (kn : known) : bool :=
-  (o_code o =? (if step_ok s st then 0 else 1))
-  && (o_counter o =? counter s')
-  && (Z.of_nat (length (o_ids o)) =? Z.of_nat (length cs))
-  && forallb (fun '(i, m, _) =>
-        match lookup_read i (o_reads o) with
-        | Some v => eqb v (query s' m)
-        | None => false
-        end) kn.
+  (** correspondence of one step: outcome kind, counter, number of ids, and every read-back
+      equal to the model's query under the model's id *)
+  Definition corr_step (s s' : state) (st : step) (cs : list (rid * rec)) (o : obs) (kn : known) : bool :=
+    (o_code o =? (if step_ok s st then 0 else 1))
+    && (o_counter o =? counter s')
+    && (Z.of_nat (length (o_ids o)) =? Z.of_nat (length cs))
+    && forallb (fun '(i, m, _) =>
+          match lookup_read i (o_reads o) with
+          | Some v => eqb v (query s' m)
+          | None => false
+          end) kn.
 
-(** the property on the implementation's own observations: every id ever returned reads
-    back exactly the submitted record, and no id was returned twice *)
-Fixpoint nodupb (l : list Z) : bool :=
-  match l with [] => true | x :: l' => negb (existsb (Z.eqb x) l') && nodupb l' end.
+  (** the property on the implementation's own observations: every id ever returned reads
+      back exactly the submitted record, and no id was returned twice *)
+  Fixpoint nodupb (l : list I) : bool :=
+    match l with [] => true | x :: l' => negb (existsb (eqb x) l') && nodupb l' end.
 
-Definition prop_step (o : obs) (kn : known) : bool :=
-  nodupb (map (fun '(i, _, _) => i) kn)
-  && forallb (fun '(i, _, r) =>
-        match lookup_read i (o_reads o) with
-        | Some (Some r') => eqb r' r
-        | _ => false
-        end) kn.
+  Definition prop_step (o : obs) (kn : known) : bool :=
+    nodupb (map (fun '(i, _, _) => i) kn)
+    && forallb (fun '(i, _, r) =>
+          match lookup_read i (o_reads o) with
+          | Some (Some r') => eqb r' r
+          | _ => false
+          end) kn.
 
-Fixpoint check_from (s : state) (kn : known) (c : case) (i : Z) (corr prop : Z) : Z * Z :=
-  match c with
-  | [] => (corr, prop)
-  | (st, o) :: rest =>
-      let '(s', cs) := exec_step s st in
-      let kn' := kn ++ zip3 (o_ids o) cs in
-      let corr' := if (corr <? 0) && negb (corr_step s s' st cs o kn') then i else corr in
-      let prop' := if (prop <? 0) && negb (prop_step o kn') then i else prop in
-      check_from s' kn' rest (i + 1) corr' prop'
-  end.
+  Fixpoint check_from (s : state) (kn : known) (c : list (step * obs)) (i : Z) (corr prop : Z) : Z * Z :=
+    match c with
+    | [] => (corr, prop)
+    | (st, o) :: rest =>
+        let '(s', cs) := exec_step s st in
+        let kn' := kn ++ zip3 (o_ids o) cs in
+        let corr' := if (corr <? 0) && negb (corr_step s s' st cs o kn') then i else corr in
+        let prop' := if (prop <? 0) && negb (prop_step o kn') then i else prop in
+        check_from s' kn' rest (i + 1) corr' prop'
+    end.
+End Check.
+Arguments obs : clear implicits.
+Arguments known : clear implicits.
+
+(** initial value of the counter (the harness may preset it near 2^32 to exercise the wrap) and the steps *)
+Definition case := (Z * list (step * obs Z))%type.
 
 (** (index of the first diverging step or -1, index of the first step violating C19 or -1,
     violated clause: always 0 here) *)
 Definition check_case (c : case) : Z * Z * Z :=
-  let '(corr, prop) := check_from init [] c 0 (-1) (-1) in (corr, prop, 0).
+  let '(c0, steps) := c in
+  let '(corr, prop) := check_from (mkState [] (c0 mod two32)) [] steps 0 (-1) (-1) in (corr, prop, 0).
